@@ -27,10 +27,10 @@ EXTRA_THEOREMS = [
     "PymotoVerif.C16.ks_sensitivity_is_derivative", "PymotoVerif.C16.pnorm_sensitivity_is_derivative",
     "PymotoVerif.C16.softminmax_sensitivity_is_derivative",
     "PymotoVerif.C12.nodalOp_eq_transpose_elemOp",
-    "PymotoVerif.C14.overhang_sens_is_backprop_partial", "PymotoVerif.C14.overhang_atom_shift_pow",
+    "PymotoVerif.C14.overhang_sens_is_backprop", "PymotoVerif.C14.overhang_sens_is_backprop_eps_pos", "PymotoVerif.C14.overhang_response_hasDerivAt", "PymotoVerif.C14.overhang_sens_is_transposed_jacobian_chain", "PymotoVerif.C14.overhang_atom_shift_pow",
     "PymotoVerif.C14.overhang_atom_root", "PymotoVerif.C14.overhang_atom_smin", "PymotoVerif.C14.overhang_sens_support_path",
     "PymotoVerif.C02.module_sensitivity_is_back", "PymotoVerif.C02.local_adjoint_is_transposed_jacobian",
-    "PymotoVerif.C02.local_jacobian_is_derivative",
+    "PymotoVerif.C02.local_jacobian_is_derivative", "PymotoVerif.C02.backprop_is_total_derivative_of_response",
 ]
 EXTRA_THEOREMS += [
     "PymotoVerif.C01Assembly.assemble_adjoint_dense", "PymotoVerif.C01Assembly.assembleDom_adjoint_dense",
